@@ -22,8 +22,8 @@ import re
 import lib
 import c04
 
-QUICK_WALKS = 25
-THOROUGH_WALKS = 400
+QUICK_WALKS = 12
+THOROUGH_WALKS = 150
 
 
 def run_trace(ctx, idx, rows):
@@ -170,7 +170,7 @@ def process(ctx, binary, catalog_path, cases, n1, n3):
             json.dumps(r["mapping"], sort_keys=True)), obj)
 
     # ---- 4. TLC: NormValid and NormPreservesMeaning ------------------------------------------------
-    nchunks = max(1, min(6, len(trace) // 300))
+    nchunks = max(1, min(6 if ctx.quick() else 10, len(trace) // 300))
     chunks = [trace[i::nchunks] for i in range(nchunks)]
     bad = {}
     with concurrent.futures.ThreadPoolExecutor(max_workers=nchunks) as ex:
